@@ -64,7 +64,8 @@ MARK = 0xA5
 
 MNEMO = {"DCB": "dc.b", "DCW": "dc.w", "DCL": "dc.l", "DCQ": "dc.q", "DCC": "dc.c", "DCS": "dc.s", "DCD": "dc.d",
          "DCX": "dc.x", "DB": "db", "DW": "dw", "DD": "dd", "DQ": "dq", "DT": "dt", "FCB": "fcb", "FDB": "fdb",
-         "BYT": "byt", "ADR": "adr", "FCC": "fcc", "TIBYTE": "byte", "TIWORD": "word", "TILONG": "long"}
+         "BYT": "byt", "ADR": "adr", "FCC": "fcc", "TIBYTE": "byte", "TIWORD": "word", "TILONG": "long",
+         "PDB": "db", "PDN": "dn", "DN": "dn", "AVRDATA": "data"}
 
 
 class Target:
@@ -93,6 +94,8 @@ class Target:
             org = it.slot // self.gran if self.gran > 1 else it.slot
             lines.append("\torg\t%d" % org)
             lines += charset_lines(md["cs"])                 # the CHARSET statements in force for this case
+            if self.cpu == "atmega128":
+                lines.append("\tpacking\t%s" % ("on" if md.get("packing") else "off"))
             lines.append("\t%s\t%s" % (it.stmt, it.expr))
             if md.get("cs2"):
                 lines += charset_lines(md["cs2"])            # changed between two copies of the statement
@@ -114,6 +117,10 @@ def target_for(case, r):
         if md["big"]:
             return ("8051", "big", "")
         return ("z80" if (md["pcodd"] or md["cs"]) else "8051", "little", "")
+    if fam == "avrdata" or (fam == "packed" and stmt in ("PDB", "PDN")):
+        return ("atmega128", "", "")          # word-addressed code segment: DB two, DN four per word
+    if fam == "packed":
+        return ("z80", "little", "")        # DN: two nibbles per byte
     if fam == "m68":
         return ("6809" if stmt in ("FCB", "FDB", "FCC") else "6502", "", "")
     return ("320c25", "", "")
@@ -129,6 +136,8 @@ def make_target(key, md):
         return Target(cpu, "intel", mode == "big", 1, "db\t0A5h", md, ["bigendian\t" + ("on" if mode == "big" else "off")])
     if cpu == "z80":
         return Target(cpu, "intel", False, 1, "db\t0A5h", md)
+    if cpu == "atmega128":
+        return Target(cpu, "c", False, 2, "dw\t0xa5a5", md)
     if cpu == "6809":
         return Target(cpu, "moto", True, 1, "fcb\t$A5", md)
     if cpu == "6502":
